@@ -16,7 +16,7 @@ def run(run):
     run.obligations_for(["Csvq.Props.C10"])
     csvq = run.build_csvq()
     if csvq:
-        run.stream("c10", 80 if q else 800, env={"VERIF_CSVQ": str(csvq)}, timeout=3000)
+        run.stream("c10", 320 if q else 1600, env={"VERIF_CSVQ": str(csvq)}, timeout=3000)
     return run.finish(
         level="proof",
         rule="transactions updating 1-3 existing CSV tables (UPDATE / INSERT / DELETE+INSERT, 0-40 rows) and optionally creating one, killed at every VerifPoint reached from the start of COMMIT (each occurrence separately); non-trivial = distinct (crash point, number of tables, per-table state) signature",
